@@ -521,6 +521,16 @@ func (s *Scanner) scanNode(n ast.Node, result *ScanResult) {
 			if strings.ToUpper(e.Operator) == "UNION" {
 				s.checkUnionInjection(e, result)
 			}
+		case *ast.WindowFrame:
+			// WindowFrame.Children() does not expose the frame bounds, so the offset
+			// expressions of ROWS/RANGE BETWEEN are scanned from here.
+			if e == nil {
+				return false
+			}
+			s.scanNode(e.Start.Value, result)
+			if e.End != nil {
+				s.scanNode(e.End.Value, result)
+			}
 		}
 		return true
 	})
